@@ -312,7 +312,9 @@ class Submitter:
         if signum in (signal.SIGINT, signal.SIGTERM):
             # This catches the signal when termination is asked
             self.log("SIGTERM received - " "Starting termination of this run...\n")
-            self._terminate()
+            # Only flag the request here: the clean up is carried out by the
+            # main loop at a safe point, never in the middle of an operation
+            self._running = False
         else:
             for cmd in self._user_signals:
                 if signum == self._user_signals[cmd][0]:
@@ -322,6 +324,10 @@ class Submitter:
         self._running = False
         # Also, kill all jobs still running
         if not self.continuation:
+            # Jobs that were set up but never submitted only need cleaning up
+            for wjob in self._waiting_jobs:
+                shutil.rmtree(wjob["folder"])
+            self._waiting_jobs = []
             for job_id in self._jobs.keys():
                 self.queue.kill(job_id)
                 # If needed, get the files from remote host
@@ -389,6 +395,9 @@ class Submitter:
 
                 # And submit! [Only if still running]
                 if not self._running:
+                    # Keep the job we just prepared, it will be either saved
+                    # or cleaned up on termination
+                    self._waiting_jobs.insert(0, njob)
                     break
                 else:
                     self.log("Submitting job " "{0} to queue\n".format(njob["name"]))
@@ -437,6 +446,10 @@ class Submitter:
             sleep_time = self.check_time - (time.time() - loop_t0)
             sleep_time = sleep_time if sleep_time > 0 else 0
             time.sleep(sleep_time)
+
+        if not self._running:
+            # Termination was requested
+            self._terminate()
 
     def _putjob_remote(self, njob):
         """Copy the files generated for a job to a remote work directory"""
